@@ -47,6 +47,8 @@ BAD_TAG = BUF_QD.replace(b'\x01nb', b'\x01nZ')
 BAD_ARRAY = faults.frame_wrap(
     1, 1, b'\x00\x32\x00\x0a\x00\x00\x01q\x00' + struct.pack('>I', 9) +
     b'\x01kA\x00\x00\x00\xffb\x01')
+BAD_HEADER = (b'\x02\x00\x01\x00\x00\x00\x21\x00\x3c\x00\x00' + b'\x00' * 7 +
+              b'\x09\xa0\x00\x0aevil/thing\x00\x00\x00\x04\x01k?\x00\xce')
 ODD_FLAGS = b'\x02\x00\x05\x00\x00\x00\x10\x00\x3c\x00\x00' + b'\x00' * 7 + \
     b'\x00\x00\x01\x00\x00\xce'
 
@@ -124,6 +126,9 @@ def ev_env_decimal(prec):
         import decimal
         if prec is None:
             decimal.setcontext(decimal.Context())
+        elif prec == 'traps':
+            decimal.getcontext().traps[decimal.Rounded] = True
+            decimal.getcontext().traps[decimal.Inexact] = True
         else:
             decimal.getcontext().prec = prec
         return 'set'
@@ -283,6 +288,8 @@ EVENTS = [
     ('unmarshal unknown tag', ev_unmarshal(BAD_TAG)),
     ('unmarshal over-long array', ev_unmarshal(BAD_ARRAY)),
     ('unmarshal continuation flags', ev_unmarshal(ODD_FLAGS)),
+    ('unmarshal header failing inside its properties',
+     ev_unmarshal(BAD_HEADER)),
     ('construct bad exchange name', ev_bad_construct_name),
     ('construct bad delivery mode', ev_bad_construct_mode),
     ('toggle ()', ev_toggle('()')),
@@ -292,9 +299,10 @@ EVENTS = [
     # the caller's thread-local decimal context is environment, not an
     # argument: results must not depend on it
     ('env: decimal context prec=6', ev_env_decimal(6)),
+    ('env: decimal context traps Rounded', ev_env_decimal('traps')),
     ('env: decimal context default', ev_env_decimal(None)),
     ('encode Decimal 21474836.47', lambda p, keep: p.encode.field_table(
-        {'d': [A.D('21474836.47'), A.D('-1234567.89')]}).hex()),
+        {'d': [A.D('21474836.47'), A.D('-1234567.89'), A.D('1E-28')]}).hex()),
     ('decode Decimal 21474836.47', lambda p, keep: c(p.decode.field_array(
         bytes.fromhex('0000000c44027fffffff4402f8a432eb')))),
     # encodes that are refused part-way through
